@@ -222,6 +222,40 @@ def selectSkeletonEq (a b : Select) : Bool :=
   ((a.orderBy.zip b.orderBy).all fun (x, y) => x.asc == y.asc && x.nullsFirst == y.nullsFirst) &&
   a.limit.isSome == b.limit.isSome
 
+mutual
+/-- forget the contents of string and number literals -/
+def eraseLits : SExpr → SExpr
+  | .str _ => .str []
+  | .num _ => .num []
+  | .call fn st args fl => .call fn st (eraseLitsL args) (eraseLits fl)
+  | .case_ a b c => .case_ (eraseLits a) (eraseLits b) (eraseLits c)
+  | .neg x => .neg (eraseLits x)
+  | .pos x => .pos (eraseLits x)
+  | .not_ x => .not_ (eraseLits x)
+  | .bin op x y => .bin op (eraseLits x) (eraseLits y)
+  | .isNull x n => .isNull (eraseLits x) n
+  | .inList x vs => .inList (eraseLits x) (eraseLitsL vs)
+  | .index x i => .index (eraseLits x) (eraseLits i)
+  | e => e
+def eraseLitsL : SExprList → SExprList
+  | .nil => .nil
+  | .cons e es => .cons (eraseLits e) (eraseLitsL es)
+end
+
+def eraseLitsSel (s : Select) : Select :=
+  { s with
+    items := s.items.map fun it => { it with expr := eraseLits it.expr }
+    join := s.join.map fun j => { j with on := eraseLits j.on }
+    where_ := s.where_.map eraseLits
+    groupBy := s.groupBy.map eraseLits
+    orderBy := s.orderBy.map fun o => { o with expr := eraseLits o.expr }
+    limit := s.limit.map eraseLits }
+
+/-- the two statements differ at most in the contents of string / number literals -/
+def statementEqUpToLits (a b : Statement) : Bool :=
+  statementEq ⟨a.ctes.map fun c => (c.1, eraseLitsSel (normSel c.2)), eraseLitsSel (normSel a.body)⟩
+              ⟨b.ctes.map fun c => (c.1, eraseLitsSel (normSel c.2)), eraseLitsSel (normSel b.body)⟩
+
 def statementSkeletonEq (a b : Statement) : Bool :=
   a.ctes.length == b.ctes.length &&
   ((a.ctes.zip b.ctes).all fun (x, y) => x.1 == y.1 && selectSkeletonEq x.2 y.2) &&
@@ -251,6 +285,9 @@ def intendedClauses (src : Bytes) (params : List (Bytes × Bytes)) (impl : Strin
           else
             -- same chain of SELECTs with the same clauses: what differs is a scalar expression (C01)
             (if statementSkeletonEq got want then ["c01-expression-differs"] else []) ++
+            -- everything but the CONTENT of a string / number literal is as intended: the value written
+            -- in PQL is not the value the SQL token decodes to (C04)
+            (if statementEqUpToLits got want then ["c04-literal-value-differs"] else []) ++
             ["c05-intended-statement-differs"]
         | some _, none => ["c05-intended-statement-missing"]
         | none, _ => []          -- reported by c05-parse
